@@ -708,6 +708,104 @@ def run_c18_fullstack(snap: dict, new_working: list[int]) -> list[dict]:
         return loop().run_until_complete(scenario())
 
 
+def run_c18_stream(hist: dict) -> list[dict]:
+    """The pool SoC / capacity STREAMED by two real `SendOnUpdate` objects (SoCCalculator, CapacityCalculator; their own
+    asyncio tasks, virtual clock, mocked API channels) along a HISTORY: `hist` = {"batteries": ids, "working": ids,
+    "steps": [[battery data …] …], "read": [sample indices]}.  At every sample each battery sends its current message
+    (stamped 100·(k+1) + id % 50 s); at the samples listed in "read" (all when absent), after a few update intervals,
+    the latest streamed values are read.  Returns one {"soc", "cap"} reading per read sample (format of `run_c18_impl`)."""
+    from frequenz.client.microgrid import Component, ComponentCategory, Connection, InverterType
+    from frequenz.sdk.timeseries.battery_pool._methods import SendOnUpdate
+    from frequenz.sdk.timeseries.battery_pool._metric_calculator import CapacityCalculator, SoCCalculator
+    from tests.utils.mock_microgrid_client import MockMicrogridClient
+
+    ids = list(hist["batteries"])
+    comps = {Component(1, ComponentCategory.GRID), Component(2, ComponentCategory.METER)}
+    conns = {Connection(1, 2)}
+    for b in ids:
+        comps.add(Component(1000 + b, ComponentCategory.INVERTER, InverterType.BATTERY))
+        comps.add(Component(b, ComponentCategory.BATTERY))
+        conns.add(Connection(2, 1000 + b))
+        conns.add(Connection(1000 + b, b))
+    mg = MockMicrogridClient(comps, conns)
+    reads = set(hist.get("read", range(len(hist["steps"]))))
+
+    async def read(sou: Any, unit: str) -> Any:
+        rx = sou.new_receiver()
+        try:
+            sample = await asyncio.wait_for(rx.receive(), 0.01)
+        except asyncio.TimeoutError:
+            return "nothing-streamed"
+        return sample_json(sample, unit)
+
+    async def scenario() -> list[dict]:
+        pools = [SendOnUpdate(set(hist["working"]), SoCCalculator(frozenset(ids)), timedelta(seconds=0.1)),
+                 SendOnUpdate(set(hist["working"]), CapacityCalculator(frozenset(ids)), timedelta(seconds=0.1))]
+        out: list[dict] = []
+        try:
+            await asyncio.sleep(1.0)
+            for k, step in enumerate(hist["steps"]):
+                for d in step:
+                    await mg.send(soc_msg({"id": d["id"], "ts": 100 * (k + 1) + d["id"] % 50,
+                                           **{x: d[x] for x in ("capacity", "lo", "hi", "soc")}}))
+                await asyncio.sleep(1.5 if k == 0 else 0.4)   # < the fetchers' 2 s time-out
+                if k in reads:
+                    out.append({"soc": await read(pools[0], "pct"), "cap": await read(pools[1], "wh")})
+            return out
+        finally:
+            for sou in pools:
+                await sou.stop()
+
+    with mock.patch("frequenz.sdk.microgrid.connection_manager._CONNECTION_MANAGER", mg.mock_microgrid):
+        return loop().run_until_complete(scenario())
+
+
+TINY_REL = [Fraction(1, 10**7), Fraction(1, 10**8), Fraction(1, 10**10), Fraction(1, 10**12), Fraction(1, 2**52)]
+
+
+def gen_c18_history(rng: random.Random, long: bool = False) -> dict:
+    """1-3 working batteries with complete in-domain data (capacity 100-5000, distinct limits, SoC inside); ONE metric of
+    one battery (mostly its SoC) changes by a tiny relative amount per sample: 1e-7 … 1e-12 or 1 ulp in short histories
+    of 3-7 samples, 5e-7 / 1e-7 / 1e-8 per sample over 200-600 samples in long ones (each step below any tolerance, the
+    total not); sometimes a second battery jumps once.  Long histories are read every 100th sample and at the end."""
+    import copy
+
+    n_b = rng.choice([1, 2]) if long else rng.choice([1, 2, 2, 3])
+    bats = []
+    for k in range(n_b):
+        lo, hi = rng.choice([(0, 100), (10, 90), (20, 80), (5, 95)])
+        soc = rng.choice([lo + (hi - lo) // 2, lo + 7, hi - 9, 50])
+        bats.append({"id": 11 + k, "capacity": rat(rng.choice([100, 1000, 1000, 5000, 2500])), "lo": rat(lo), "hi": rat(hi),
+                     "soc": rat(soc)})
+    key = rng.choice(["soc", "soc", "soc", "capacity", "hi", "lo"])
+    ti = rng.randrange(n_b)
+    if key == "lo" and Fraction(bats[ti]["lo"]) == 0:
+        key = "soc"
+    eps = rng.choice([Fraction(1, 2 * 10**6), Fraction(1, 10**7), Fraction(1, 10**8)]) if long else rng.choice(TINY_REL)
+    up = rng.random() < 0.5
+    n = rng.choice([200, 400, 600]) if long else rng.randint(3, 7)
+    steps = [bats]
+    jump_at = rng.randint(1, n - 1) if (n_b > 1 and rng.random() < 0.3) else None
+    for k in range(1, n):
+        nxt = copy.deepcopy(steps[-1])
+        d = nxt[ti]
+        # (linear in the sample index: the same relative step per sample, small denominators over long histories)
+        v = Fraction(bats[ti][key]) * ((1 + k * eps) if up else (1 - k * eps))
+        lo, hi = Fraction(d["lo"]), Fraction(d["hi"])
+        ok = {"soc": lo <= v <= hi, "capacity": v > 0, "hi": v > max(lo, Fraction(d["soc"])) and v <= 100,
+              "lo": 0 <= v < min(hi, Fraction(d["soc"]))}[key]
+        if ok:
+            d[key] = rat(v)
+        if jump_at == k:
+            o = nxt[(ti + 1) % n_b]
+            o["soc"] = rat((Fraction(o["lo"]) + Fraction(o["hi"])) / 2 + 3)
+        steps.append(nxt)
+    hist = {"batteries": [b["id"] for b in bats], "working": [b["id"] for b in bats], "steps": steps}
+    if long:
+        hist["read"] = sorted(set(range(0, n, 100)) | {n - 1})
+    return hist
+
+
 def fullstack_script(snap: dict, new_working: list[int]) -> dict:
     """The same scenario as an operation script for the synchronous runner and the Lean driver."""
     s = static_script(snap)
